@@ -393,6 +393,9 @@ QUAD_ATTRS = ('_theta_pts', '_theta_wts', '_costheta', '_sintheta', '_phi_pts',
               '_phi_wts')
 
 
+LENSMOD = 'holopy.scattering.theory.lens.'
+
+
 def lens_quadrature_current(check, prog):
     """V10: the lens wrapper integrates over the pupil of the lens angle (and with
     the numbers of nodes) it has when the field is asked for -- the values it
@@ -403,38 +406,45 @@ def lens_quadrature_current(check, prog):
     fd = prog.func(q)
     loc = prog.loc(q, fd)
     me = sym('self')
-    helpers = ['_compute_integral', '_transform_integral_from_lr_to_xyz',
-               '_compute_field_phase', '_compute_integrand']
-    it = Interp(prog, max_depth=1, opaque=[LENS + '.' + h for h in helpers] + [
-        MLF + 'gauss_legendre_pts_wts', MLF + 'pts_wts_for_phi_integrals'])
-    it.analyze(q)
-    first = [c for c in it.calls if c['name'].split('.')[-1] in helpers]
-    if not first:
-        check.bad('V10-quadrature-current', 'Lens.raw_fields',
-                  'no call of the integration helpers', loc)
+    # the whole calculation, every method of the class inlined (the wrapped
+    # theory and the two node generators stay opaque): an attribute of self that
+    # survives in a term is state the calculation *found* on the object; one that
+    # was stored earlier in the same call has been replaced by the stored value
+    it = Interp(prog, max_depth=6, opaque=[
+        LENSMOD + 'gauss_legendre_pts_wts', LENSMOD + 'pts_wts_for_phi_integrals'])
+    res = it.analyze(q)
+    terms = [res.ret] + [a for c in it.calls for a in c['args']] + \
+        [v for c in it.calls for k, v in c['kwargs']]
+    left = {x[1][2] for t in terms for x in subterms(t) if x[0] == 'call' and
+            isinstance(x[1], tuple) and x[1][0] == 'attr' and x[1][1] == me and
+            prog.lookup(LENS, x[1][2])}
+    if left:
+        check.error('Lens.raw_fields: methods not inlined (%s): cannot tell which '
+                    'state they read' % ', '.join(sorted(left)))
         return
-    recv = first[0]['args'][0]
-    stored = {}
-    t = recv
-    while t[0] == 'upd':
-        if t[2] == 'attr':
-            stored.setdefault(t[3], t[4])
-        t = t[1]
-    wants = {'_theta_pts': ('lens_angle', 'quad_npts_theta'), '_phi_pts': ('quad_npts_phi',)}
-    for attr, srcs in wants.items():
-        val = stored.get(attr)
-        okv = val is not None and all(
-            any(x == ('attr', me, sname) for x in subterms(val)) for sname in srcs)
-        check.require(okv, 'V10-quadrature-current', 'Lens.raw_fields ' + attr,
-                      'when the integral is taken, self.%s has just been computed '
-                      'from self.%s' % (attr, ', self.'.join(srcs)), loc,
-                      fail_detail='the integration helpers read self.%s as '
-                      '__init__ left it (%s): after lens.lens_angle = 0.4 the '
-                      'object shows, saves and reloads as 0.4 and computes with the '
-                      'old pupil (hologram off by 0.3; the saved-and-reloaded copy '
-                      'disagrees with the object it was saved from)' % (
-                          attr, 'not refreshed in raw_fields' if val is None
-                          else show(val)[:80]))
+    found = sorted({x[2] for t in terms for x in subterms(t)
+                    if x[0] == 'attr' and x[1] == me and x[2] in QUAD_ATTRS})
+    check.require(not found, 'V10-quadrature-current', 'Lens.raw_fields quadrature state',
+                  'no node, weight or trigonometric table is read as the constructor '
+                  'left it', loc,
+                  fail_detail='the calculation reads self.%s as __init__ left it: '
+                  'after lens.lens_angle = 0.4 the object shows, saves and reloads '
+                  'as 0.4 and computes with the old pupil (hologram off by 0.3; the '
+                  'saved-and-reloaded copy disagrees with the object it was saved '
+                  'from)' % ', self.'.join(found))
+    gl = [c for c in it.calls if c['name'] == LENSMOD + 'gauss_legendre_pts_wts']
+    ph = [c for c in it.calls if c['name'] == LENSMOD + 'pts_wts_for_phi_integrals']
+    from .common import call_args
+    okn = bool(gl) and all(
+        call_args(prog, c).get('b') == ('attr', me, 'lens_angle') and
+        call_args(prog, c).get('npts') == ('attr', me, 'quad_npts_theta') for c in gl) \
+        and bool(ph) and all(
+            any(a == ('attr', me, 'quad_npts_phi') for a in c['args']) for c in ph)
+    check.require(okn or bool(found), 'V10-quadrature-current', 'Lens.raw_fields nodes',
+                  'the nodes are generated in the call from self.lens_angle, '
+                  'self.quad_npts_theta and self.quad_npts_phi', loc,
+                  fail_detail='node generators are called with %s' % [
+                      [show(a)[:40] for a in c['args']] for c in gl + ph])
     # a prior as lens angle: nothing is computed from it at construction
     qi = LENS + '.__init__'
     fdi = prog.func(qi)
@@ -445,9 +455,9 @@ def lens_quadrature_current(check, prog):
             return True
         return None
     iti = Interp(prog, max_depth=2, decide=decide, opaque=[
-        MLF + 'gauss_legendre_pts_wts', MLF + 'pts_wts_for_phi_integrals'])
+        LENSMOD + 'gauss_legendre_pts_wts', LENSMOD + 'pts_wts_for_phi_integrals'])
     iti.analyze(qi)
-    used = [c for c in iti.calls if c['name'] == MLF + 'gauss_legendre_pts_wts'
+    used = [c for c in iti.calls if c['name'] == LENSMOD + 'gauss_legendre_pts_wts'
             and any(x in (sym('lens_angle'), ('attr', me, 'lens_angle'))
                     for a in list(c['args']) + [v for k, v in c['kwargs']]
                     for x in subterms(a))]
@@ -768,8 +778,10 @@ def lens_wiring(check, prog):
     ok = len(ig) == 1 and v[0] == 'tuple' and len(v[1]) == 2
     if ok:
         P2 = [sym(a.arg) for a in fd.args.args]
-        ok = tuple(ig[0]['args']) == tuple(P2)
-        call = intern(('call', ('attr', P2[0], '_compute_integrand'), tuple(P2[1:]), ()))
+        # (the receiver as it is at the call: a quadrature refreshed here shows)
+        ok = tuple(ig[0]['args'][1:]) == tuple(P2[1:])
+        call = intern(('call', ('attr', ig[0]['args'][0], '_compute_integrand'),
+                       tuple(P2[1:]), ()))
         for i in (0, 1):
             x = v[1][i]
             ok = ok and x[0] == 'call' and x[1] == 'numpy.sum' and \
